@@ -823,3 +823,58 @@ mod tests {
         }
     }
 }
+
+/// Verification hooks: run-time-parameter entry points of the formatter.
+#[cfg(substrate_fixed_verif)]
+pub(crate) mod verif {
+    use super::*;
+
+    /// Sign, magnitude (in an unsigned primitive of `nbits` bits) and the
+    /// number of fractional bits; its formatting traits call `fmt_dec` /
+    /// `fmt_radix2` exactly as the fixed-point types do.
+    pub struct Raw {
+        pub neg: bool,
+        pub abs: u128,
+        pub nbits: u32,
+        pub frac_nbits: u32,
+    }
+
+    macro_rules! by_width {
+        ($self:expr, $U:ident => $body:expr) => {
+            match $self.nbits {
+                8 => { type $U = u8; $body }
+                16 => { type $U = u16; $body }
+                32 => { type $U = u32; $body }
+                64 => { type $U = u64; $body }
+                128 => { type $U = u128; $body }
+                _ => panic!("verif_hooks: unsupported primitive"),
+            }
+        };
+    }
+
+    impl Display for Raw {
+        fn fmt(&self, f: &mut Formatter) -> FmtResult {
+            by_width!(self, U => fmt_dec((self.neg, self.abs as U), self.frac_nbits, f))
+        }
+    }
+    impl Binary for Raw {
+        fn fmt(&self, f: &mut Formatter) -> FmtResult {
+            by_width!(self, U => fmt_radix2((self.neg, self.abs as U), self.frac_nbits, Radix::Bin, f))
+        }
+    }
+    impl Octal for Raw {
+        fn fmt(&self, f: &mut Formatter) -> FmtResult {
+            by_width!(self, U => fmt_radix2((self.neg, self.abs as U), self.frac_nbits, Radix::Oct, f))
+        }
+    }
+    impl LowerHex for Raw {
+        fn fmt(&self, f: &mut Formatter) -> FmtResult {
+            by_width!(self, U => fmt_radix2((self.neg, self.abs as U), self.frac_nbits, Radix::LowHex, f))
+        }
+    }
+    impl UpperHex for Raw {
+        fn fmt(&self, f: &mut Formatter) -> FmtResult {
+            by_width!(self, U => fmt_radix2((self.neg, self.abs as U), self.frac_nbits, Radix::UpHex, f))
+        }
+    }
+}
